@@ -23,6 +23,10 @@ var c13Families = []family{
 	// one label group whose resolver-backed fields are not adjacent (a plain field in between), and interleaved label groups
 	{`query($d1: Boolean!) { me { id ... @defer(if: $d1, label: "A") { best { id } name age boss { id } } } }`, []string{"d1"}},
 	{`query($d1: Boolean!, $d2: Boolean!) { me { ... @defer(if: $d1, label: "X") { best { id } } ... @defer(if: $d2, label: "Y") { boss { id } } ... @defer(if: $d1, label: "X") { friends { id } } } }`, []string{"d1", "d2"}},
+	// a field selected plainly and again, with more sub-fields, inside deferred fragments (inline and spread): whichever
+	// payload carries it, the merged result holds the merged selection (the groups hold nullable fields only: which
+	// group such a field belongs to when a non-null sibling fails is not settled by the property)
+	{`query($d1: Boolean!) { me { id friends { id } ... @defer(if: $d1, label: "A") { friends { name age } best { id } } ...G @defer(if: $d1, label: "B") } } fragment G on User { friends { best { id } } link { id } }`, []string{"d1"}},
 }
 
 var c13Docs []*ast.QueryDocument
@@ -129,6 +133,9 @@ func Harness_C13_defer() {
 			}
 		}
 		zzsym.Reach("c13.incremental")
+	}
+	if c13Canon(tree) != c13Canon(wantTree) {
+		zzsym.Event("merged", c13Canon(tree), "want", c13Canon(wantTree))
 	}
 	zzsym.Assert(c13Canon(tree) == c13Canon(wantTree), "merged payloads equal the plain result (propagation stops at the group's object)")
 	// no error that the plain execution would not report
